@@ -502,6 +502,9 @@ def eval_case(c):
         lines.append(f"c07 declared {p_bytes(stripped)} {1 if is_html else 0}")
         expect.append(p_opt(real_decl))
         tags.append("declared")
+        lines.append(f"c07 declaredrx 0 {p_bytes(stripped)} {1 if is_html else 0} 0")
+        expect.append(p_opt(real_decl))
+        tags.append("declaredrx")
         lines.append(f"c07 bom {p_bytes(m)}")
         expect.append(f"{p_bytes(stripped)} {p_opt(sniffed)}" if not light else None)
         tags.append("bom")
@@ -848,6 +851,121 @@ def declared_stream(seed, n):
             lines.append(f"c07 declared {p_bytes(s)} {1 if h else 0}")
             expect.append(p_opt(got))
             cases.append(dict(markup_hex=s.hex(), is_html=h, stream="declared-tokens"))
+            lines.append(f"c07 declaredrx 0 {p_bytes(s)} {1 if h else 0} 0")
+            expect.append(p_opt(got))
+            cases.append(dict(markup_hex=s.hex(), is_html=h, stream="declared-tokens", op="declaredrx"))
+            if len(s) < 4000:
+                got_all = EncodingDetector.find_declared_encoding(s, h, search_entire_document=True)
+                lines.append(f"c07 declaredrx 0 {p_bytes(s)} {1 if h else 0} 1")
+                expect.append(p_opt(got_all))
+                cases.append(dict(markup_hex=s.hex(), is_html=h, stream="declared-tokens", op="declaredrx", search_entire_document=True))
+    return lines, expect, cases, hits
+
+
+STR_TOKENS = ["<", ">", "?", "<?", "?>", "<?xml ", "meta", "META", " ", "\t", "\n", "\r", "charset", "CharSet", "=", "'", '"', "/", ";", "encoding=",
+              "ENCODING=", "utf-8", "x", "content=", "<meta ", "<meta charset=", "<?xml version='1.0' encoding='", "\x0b", "\x0c", "\x1c", "\x1f", "\x85",
+              "\xa0", "\u2003", "\u2028", "\u3000", "\u200b", "char\u017fet", "CHAR\u017fET", "encod\u0131ng=", "encod\u0130ng=", "ENCOD\u0130NG=", "\u212a",
+              "m\u0435ta", "\xe9", "Latin-1", "KOI8-R", "\u0130SO", "\u017f", "<\xa0meta\u2003", "\U0001d400", "\ud800"]
+
+
+def ascii_lower_model_to_python(reply: str) -> str:
+    """The model lower-cases ASCII letters only; Python's str.lower() is applied on top for comparison (equal on what the model already folded)."""
+    if reply in ("none", "bad-op") or reply == "e":
+        return reply
+    t = "".join(chr(int(x)) for x in reply.split("."))
+    return p_name(t.lower())
+
+
+def declared_str_stream(seed, n):
+    """find_declared_encoding on str documents (the str flavour of the two patterns: Unicode white space, Unicode case folding of the
+    literals) versus the regex engine of the model."""
+    from bs4.dammit import EncodingDetector
+    rng = rng_for(seed, "C07", "declared-str")
+    lines, expect, cases = [], [], []
+    hits = Counter()
+    for _ in range(n):
+        s = "".join(rng.choice(STR_TOKENS) for _ in range(rng.randint(0, 12)))
+        if rng.random() < 0.3:
+            s = (rng.choice(["", " ", "\u3000\n", "\x1c"]) + "<?xml version='1.0' " + "".join(rng.choice(STR_TOKENS) for _ in range(rng.randint(0, 2)))
+                 + rng.choice(["encoding=", "ENCOD\u0130NG=", "encod\u0131ng="]) + rng.choice(["'", '"']) + rng.choice(["utf-8", "Latin-1", "", "\u0130so"])
+                 + rng.choice(["'", '"', ""]) + rng.choice(["?>", "?", "?>\n"]) + s)
+        for h in (True, False):
+            for entire in (False, True):
+                got = EncodingDetector.find_declared_encoding(s, h, search_entire_document=entire)
+                hits["declared-str:" + ("hit" if got is not None else "miss")] += 1
+                lines.append(f"c07 declaredrx 1 {p_text(s) if s else '-'} {1 if h else 0} {1 if entire else 0}")
+                expect.append(p_opt(got))
+                cases.append(dict(markup_str=s, is_html=h, stream="declared-str", search_entire_document=entire))
+    return lines, expect, cases, hits
+
+
+RX_ITEMS = ["a", "e", "s", "i", "t", "<", ">", "=", " ", "\\n", '"', "\\?", ".", "\\s", "[ae]", "[^a]", "[^ae]", "[ \\s=]", "[^>]", "['\"]", "[^\\s<]"]
+RX_QUANT = ["", "", "", "*", "+", "?", "*?", "+?", "??"]
+RX_SUBJECT = ["a", "A", "e", "E", "s", "S", "i", "I", "t", "<", ">", "=", " ", "\n", '"', "?", "x", "\t", "'"]
+RX_SUBJECT_STR = RX_SUBJECT + ["\u017f", "\u0131", "\u0130", "\xa0", "\u2003", "\x1c", "\x85", "\xe9"]
+
+
+def rx_stream(seed, n):
+    """The regex engine of the model against Python's `re` on random patterns of the supported fragment (not only the two of dammit.py):
+    re.I, bytes and str flavours, random endpos. Ties `Rx.search` to the `re` semantics it mirrors."""
+    import re
+    import sys
+    sys.path.insert(0, os.path.join(os.path.dirname(os.path.dirname(os.path.abspath(__file__))), "translate"))
+    from parts_c07 import rx_atoms
+    rng = rng_for(seed, "C07", "rx")
+
+    def enc_cls(c):
+        if c[0] == "lit":
+            return f"L{c[1]}"
+        if c[0] == "notLit":
+            return f"N{c[1]}"
+        if c[0] == "any":
+            return "A"
+        if c[0] == "space":
+            return "S"
+        return f"O{1 if c[2] else 0}{1 if c[3] else 0}," + (".".join(map(str, c[1])) if c[1] else "-")
+
+    def enc_atom(a):
+        if a[0] == "gopen":
+            return "("
+        if a[0] == "gclose":
+            return ")"
+        if a[0] == "one":
+            return "1/" + enc_cls(a[1])
+        return f"r{1 if a[2] else 0}{1 if a[3] else 0}{1 if a[4] else 0}/" + enc_cls(a[1])
+    lines, expect, cases = [], [], []
+    hits = Counter()
+    while len(lines) < n:
+        k = rng.randint(1, 6)
+        items = [rng.choice(RX_ITEMS) + rng.choice(RX_QUANT) for _ in range(k)]
+        if rng.random() < 0.7:
+            i = rng.randint(0, k - 1)
+            j = rng.randint(i, k - 1)
+            items[i] = "(" + items[i]
+            items[j] = items[j] + ")"
+        src = ("^" if rng.random() < 0.25 else "") + "".join(items)
+        try:
+            anchored, atoms = rx_atoms(src, re.I)
+            cu = re.compile(src, re.I)
+            cb = re.compile(src.encode("ascii"), re.I)
+        except (ValueError, re.error):
+            continue
+        pat = ";".join(enc_atom(a) for a in atoms)
+        for _ in range(4):
+            flavor = rng.choice("bs")
+            subj = "".join(rng.choice(RX_SUBJECT if flavor == "b" else RX_SUBJECT_STR) for _ in range(rng.randint(0, 9)))
+            endpos = rng.choice([len(subj), len(subj), rng.randint(0, len(subj) + 1)])
+            if flavor == "b":
+                m = cb.search(subj.encode("latin-1"), endpos=endpos)
+                got = None if m is None else (m.group(1) if cb.groups else b"")
+                got = None if m is None else ("" if got is None else got.decode("latin-1"))
+            else:
+                m = cu.search(subj, endpos=endpos)
+                got = None if m is None else ((m.group(1) or "") if cu.groups else "")
+            hits["rx:" + ("hit" if m is not None else "miss")] += 1
+            lines.append(f"c07 rx {flavor} {1 if anchored else 0} {pat} {p_text(subj)} {endpos}")
+            expect.append(p_text(got))
+            cases.append(dict(pattern=src, flavor=flavor, subject=subj, endpos=endpos, stream="rx"))
     return lines, expect, cases, hits
 
 
@@ -1024,6 +1142,24 @@ def run(ctx: Ctx):
             ctx.corr_disagreements += 1
             ctx.violation("model and implementation disagree (find_declared_encoding on a token soup)", case=c | {"line": l[:2000]}, observed=e, model=r,
                           stream="declared-tokens/model", no_failing_input=True)
+    lines, expect, cases, hits = declared_str_stream(ctx.seed, ctx.n(3000, 30000))
+    for k, v in hits.items():
+        ctx.count(k, v)
+    for l, e, r, c in zip(lines, expect, drv.ask(lines), cases):
+        ctx.case(None)
+        if e != ascii_lower_model_to_python(r):
+            ctx.corr_disagreements += 1
+            ctx.violation("model and implementation disagree (find_declared_encoding on a str document)", case=c | {"line": l[:2000]}, observed=e, model=r,
+                          stream="declared-str/model", no_failing_input=True)
+    lines, expect, cases, hits = rx_stream(ctx.seed, ctx.n(20000, 200000))
+    for k, v in hits.items():
+        ctx.count(k, v)
+    for l, e, r, c in zip(lines, expect, drv.ask(lines), cases):
+        ctx.case(None)
+        if e != r:
+            ctx.corr_disagreements += 1
+            ctx.violation("the model's regex engine and Python's re disagree (semantics of the supported fragment)", case=c | {"line": l[:2000]}, observed=e, model=r,
+                          stream="rx/model", no_failing_input=True)
     lines, expect, cases = bom_probe_stream()
     ctx.exhaustive_parts.append(f"strip_byte_order_mark: all {len(lines)} byte strings of length <= 5 over {{00,fe,ff,ef,bb,bf,61}}")
     for l, e, r, c in zip(lines, expect, drv.ask(lines), cases):
